@@ -42,7 +42,7 @@ func runC13(r *Run) {
 	r.NotDec = []string{"CheckTx/ReCheckTx/DeliverTx mode differences of baseapp", "cryptographic validity", "that at most MaxNonce messages are admitted per round as a count over histories (the per-message guard and the reset points are decided)"}
 	r.Assume = []string{"baseapp commits the ante handler's writes when the ante chain succeeds and nothing when it fails", "sdk.ChainAnteDecorators runs decorators in argument order"}
 	r.rule("C13.R1", "fee-less classification: non-empty and every message is *MsgCreatePrice", 2)
-	r.rule("C13.R2", "every fee-less ante branch ends in next(...) or an error; branch-specific duties (gas meter limit 0, top priority, size limit, signer = public-key address, signature verification, nonce check per message)", 20)
+	r.rule("C13.R2", "every fee-less ante branch ends in next(...) or an error; branch-specific duties (gas meter limit 0, top priority, size limit, signer = public-key address, signature verification, nonce check per message)", 16)
 	r.rule("C13.R3", "ante chain composition and order for Cosmos transactions", 5)
 	r.rule("C13.R4", "nonce check: reject above MaxNonce; write only on the previous+1 arm of the matching feeder; every other exit is an error", 6)
 	r.rule("C13.R5", "nonce lifecycle: zero record only when absent; removed for sealed rounds, at finalisation, added for new rounds; writer set of the nonce family", 7)
